@@ -4,6 +4,7 @@ import (
 	"fmt"
 	"go/ast"
 	"go/types"
+	"strings"
 
 	"gocv/smt"
 	"gocv/spec"
@@ -18,9 +19,20 @@ import (
 type memHist struct {
 	Blocks []int
 	Stores [][2]int
+	// Heavy histories (many overlap patterns) are read at one width only in
+	// the quick tier.
+	Heavy bool
+	// Fixed gives concrete begin addresses to the blocks (fewer overlap
+	// patterns to explore: only the writes and the read are placed freely).
+	Fixed []uint64
 }
 
-func (h memHist) String() string { return fmt.Sprintf("blocks%v stores%v", h.Blocks, h.Stores) }
+func (h memHist) String() string {
+	if h.Fixed != nil {
+		return fmt.Sprintf("blocks%v@%x stores%v", h.Blocks, h.Fixed, h.Stores)
+	}
+	return fmt.Sprintf("blocks%v stores%v", h.Blocks, h.Stores)
+}
 
 type histRec struct {
 	Addr *smt.Term // 64 bits
@@ -96,20 +108,22 @@ func memHistories(kind, tier string) []memHist {
 	case "bytes":
 		hs = []memHist{
 			{}, {Blocks: []int{4}}, {Blocks: []int{2, 3}}, {Stores: st([2]int{2, 2})}, {Blocks: []int{4}, Stores: st([2]int{2, 2})},
-			{Blocks: []int{2}, Stores: st([2]int{4, 4})}, {Blocks: []int{2, 2}, Stores: st([2]int{2, 2})}, {Stores: st([2]int{2, 2}, [2]int{2, 2})},
-			{Blocks: []int{3}, Stores: st([2]int{1, 1}, [2]int{2, 4})},
+			{Blocks: []int{2}, Stores: st([2]int{4, 4})}, {Blocks: []int{1, 1}, Fixed: []uint64{0x1000, 0x1002}, Stores: st([2]int{2, 2}), Heavy: true}, {Stores: st([2]int{2, 2}, [2]int{2, 2}), Heavy: true},
 		}
 		if tier == "thorough" {
-			hs = append(hs, memHist{Blocks: []int{2, 2}, Stores: st([2]int{4, 4})}, memHist{Blocks: []int{1, 1}, Stores: st([2]int{1, 1}, [2]int{1, 1})},
+			hs = append(hs, memHist{Blocks: []int{1, 1}, Stores: st([2]int{1, 1})}, memHist{Blocks: []int{2, 2}, Stores: st([2]int{2, 2})}, memHist{Blocks: []int{3}, Stores: st([2]int{1, 1}, [2]int{2, 4})},
+				memHist{Blocks: []int{2, 2}, Stores: st([2]int{4, 4})}, memHist{Blocks: []int{1, 1}, Stores: st([2]int{1, 1}, [2]int{1, 1})},
 				memHist{Stores: st([2]int{1, 1}, [2]int{1, 1}, [2]int{1, 1})}, memHist{Blocks: []int{2, 2, 2}, Stores: st([2]int{2, 2})})
 		}
 	case "overlay":
 		hs = []memHist{
 			{Blocks: []int{4}}, {Blocks: []int{2, 2}}, {Blocks: []int{4}, Stores: st([2]int{2, 2})}, {Blocks: []int{2}, Stores: st([2]int{4, 4})},
-			{Blocks: []int{4}, Stores: st([2]int{1, 1}, [2]int{1, 1})}, {Stores: st([2]int{2, 2})}, {Blocks: []int{2, 2}, Stores: st([2]int{2, 4})},
+			{Blocks: []int{4}, Fixed: []uint64{0x1000}, Stores: st([2]int{1, 1}, [2]int{1, 1}), Heavy: true}, {Stores: st([2]int{2, 2})},
+			{Blocks: []int{2, 2}, Fixed: []uint64{0x1000, 0x1003}, Stores: st([2]int{2, 4}), Heavy: true},
 		}
 		if tier == "thorough" {
-			hs = append(hs, memHist{Blocks: []int{2, 2}, Stores: st([2]int{1, 1}, [2]int{1, 1})}, memHist{Blocks: []int{8}, Stores: st([2]int{2, 2}, [2]int{2, 2})},
+			hs = append(hs, memHist{Blocks: []int{4}, Stores: st([2]int{1, 1}, [2]int{1, 1})}, memHist{Blocks: []int{2, 2}, Stores: st([2]int{2, 4})},
+				memHist{Blocks: []int{2, 2}, Stores: st([2]int{1, 1}, [2]int{1, 1})}, memHist{Blocks: []int{8}, Stores: st([2]int{2, 2}, [2]int{2, 2})},
 				memHist{Blocks: []int{1, 1, 1}, Stores: st([2]int{1, 1})})
 		}
 	case "layouts":
@@ -158,6 +172,9 @@ func (c *Ctx) installMemBuiltins(ev *spec.Eval, hists []memHist) {
 		var els []sx.Val
 		for i, n := range h.Blocks {
 			begin := smt.Var(fmt.Sprintf("blk%d.begin", i), smt.BV(64))
+			if h.Fixed != nil {
+				begin = smt.BVU(h.Fixed[i], 64)
+			}
 			p.Assume(nowrapTerm(begin, n))
 			bs := make([]sx.Val, n)
 			var val *smt.Term
@@ -211,7 +228,9 @@ func (c *Ctx) installMemBuiltins(ev *spec.Eval, hists []memHist) {
 			p.Ghost["leaf:"+name] = v
 			ex = c.IR.MkRegLoad(name, ew)
 		}
-		call(fn, recv, addr, ex, smt.BVU(uint64(w), 8))
+		// Store is under contract too: its panics and index errors are
+		// obligations of the unit, not assumptions of the set-up
+		p.Call(fn, []sx.Val{recv, addr, ex, smt.BVU(uint64(w), 8)}, nil, nil)
 		hs.Recs = append(hs.Recs, histRec{Addr: addr, Len: w, Val: smt.Resize(v, 8*w)})
 	}
 	B["sparse_hist"] = func(ev *spec.Eval, a []ast.Expr) spec.TV {
@@ -356,8 +375,14 @@ func (c *Ctx) memUnits(name string, kind string, set string) []*vc.Unit {
 		us.InstanceName = fmt.Sprintf("h=%s", h)
 		if w, ok := us.Enum["w"]; ok {
 			us.InstanceName += fmt.Sprintf(" w=%d", w)
+			if h.Heavy && c.Tier != "thorough" && w != c.Sets["LOADW"][0] {
+				us.Skip = true
+				return
+			}
 		}
 		us.MaxPaths = 300000
+		op := name[strings.LastIndex(name, ".")+1:]
+		us.Replay = c.memReplay(kind, op, h, us.Enum["w"])
 		us.CallHook = c.valueHook
 		us.Inputs = func(p *sx.Path, ev *spec.Eval, fn *ssa.Function) map[string]sx.Val {
 			c.installMemBuiltins(ev, hists)
